@@ -48,10 +48,17 @@ impl<T: Send> BoundedAsyncSender<T> {
     }
   }
 
+  /// Carries a handle's closed flag across `to_sync`/`to_async`.
+  pub(crate) fn with_closed(self, closed: bool) -> Self {
+    self.closed.store(closed, Ordering::Relaxed);
+    self
+  }
+
   pub fn to_sync(self) -> BoundedSyncSender<T> {
+    let closed = self.closed.load(Ordering::Relaxed);
     let shared = unsafe { std::ptr::read(&self.shared) };
     mem::forget(self);
-    BoundedSyncSender::from_shared(shared)
+    BoundedSyncSender::from_shared(shared).with_closed(closed)
   }
 
   pub fn send(&mut self, item: T) -> SendFuture<'_, T> {
@@ -203,13 +210,20 @@ impl<T: Send> BoundedAsyncReceiver<T> {
     }
   }
 
+  /// Carries a handle's closed flag across `to_sync`/`to_async`.
+  pub(crate) fn with_closed(self, closed: bool) -> Self {
+    self.closed.store(closed, Ordering::Relaxed);
+    self
+  }
+
   pub fn to_sync(self) -> BoundedSyncReceiver<T> {
     if self.is_registered {
       self.shared.unregister(Role::Recv);
     }
+    let closed = self.closed.load(Ordering::Relaxed);
     let shared = unsafe { std::ptr::read(&self.shared) };
     mem::forget(self);
-    BoundedSyncReceiver::from_shared(shared)
+    BoundedSyncReceiver::from_shared(shared).with_closed(closed)
   }
 
   pub fn recv(&mut self) -> ReceiveFuture<'_, T> {
